@@ -1,3 +1,4 @@
+mod c06;
 mod c12;
 mod c13;
 mod distprobe;
@@ -163,6 +164,15 @@ fn main() {
     let args: Vec<String> = std::env::args().collect();
     match args.get(1).map(|s| s.as_str()) {
         Some("fw") => cmd_fw(&args[2..]),
+        Some("c06") => {
+            let a = &args[2..];
+            c06::run(
+                arg(a, "--seed").map(|s| s.parse().unwrap()).unwrap_or(1),
+                arg(a, "--n").map(|s| s.parse().unwrap()).unwrap_or(40),
+                &arg(a, "--out").expect("--out"),
+                arg(a, "--only").map(|s| s.parse().unwrap()),
+            )
+        }
         Some("c12") => {
             let a = &args[2..];
             c12::run(
